@@ -1,3 +1,4 @@
 -- Root of the `Juniper` library: every property file (and through them models and proofs).
 import Juniper.Props.C04
 import Juniper.Props.C13
+import Juniper.Props.C14
